@@ -222,6 +222,29 @@ def extract():
     else:
         send_key_in_call = s_snap < s_apply
 
+    # does an accepted session keep the handshake's receive timeout?
+    rhp = _function_body(src, r"bool\s+SessionManager::read_handshake_payload\s*\(")
+    hs_ms = 2000
+    mto = re.search(r"kHandshakeTimeout\s*\{\s*(\d+)\s*\}", src)
+    if mto:
+        hs_ms = int(mto.group(1))
+    else:
+        gaps.append("kHandshakeTimeout not found")
+    no_timeout = True
+    if not rhp:
+        gaps.append("read_handshake_payload not found")
+    else:
+        reset = r"set_recv_timeout\s*\(\s*socket\s*,\s*std::chrono::milliseconds::zero\(\)\s*\)\s*;\s*$"
+        rets = list(re.finditer(r"return\s+(?:true|false)\s*;", rhp))
+        if not rets:
+            gaps.append("read_handshake_payload: no return statements recognised")
+        for r_ in rets:
+            before = rhp[:r_.start()]
+            if re.search(r"if\s*\(\s*!\s*set_recv_timeout\s*\(\s*socket\s*,\s*timeout\s*\)\s*\)\s*\{\s*$", before):
+                continue            # arming the timeout failed: nothing to restore
+            if not re.search(reset, before):
+                no_timeout = False
+
     body = f"""/-- `kMaxPayloadSize` -/
 def kMaxPayloadSize : Nat := {vals.get('kMaxPayloadSize', MIB)}
 /-- `kNonceSize = sizeof(crypto::Nonce::bytes)` -/
@@ -249,7 +272,11 @@ def sendHoldsSessionLock : Bool := {'true' if holds_lock else 'false'}
 /-- in `receive_loop` the snapshot `key.bytes = session->key` is taken after the frame (header and body) has been read -/
 def recvKeySnapshotAfterFrame : Bool := {'true' if recv_key_after else 'false'}
 /-- in `send` the snapshot `key.bytes = session->key` is taken in the call, before the frame is encrypted -/
-def sendKeySnapshotInCall : Bool := {'true' if send_key_in_call else 'false'}"""
+def sendKeySnapshotInCall : Bool := {'true' if send_key_in_call else 'false'}
+/-- `kHandshakeTimeout` (ms), armed as SO_RCVTIMEO while an inbound handshake is read -/
+def kHandshakeTimeoutMs : Nat := {hs_ms}
+/-- every exit of `read_handshake_payload` after the timeout has been armed restores a zero SO_RCVTIMEO, so an accepted session is published without a receive timeout -/
+def acceptedSessionHasNoRecvTimeout : Bool := {'true' if no_timeout else 'false'}"""
     write_generated(PID, body)
     return gaps
 
@@ -483,6 +510,10 @@ def generate(ctx, budget):
     if thorough:
         for _ in range(5):
             cases.append(case_concurrent(rng, "heavy"))
+        # send timings: a peer silent for longer than the 2 s handshake timeout, in each direction (real time)
+        for d in ("ba", "ab"):
+            cases.append(Case(ops=[f"open {KEYS[0]}", f"send {d} 10 1", f"drain {d}", "idle 2300", f"send {d} 64 2", f"send {d} 0 3",
+                                   f"drain {d}", "idle 2300", f"send {d} 1000 4", f"drain {d}"], tag="idle-gap"))
     if thorough:
         cases.append(case_wire(rng, [MIB, 65536]))
         cases.append(Case(ops=[f"open {KEYS[0]}", "rawopen", f"rawframe {rnonce(rng)} auto {MIB} 77 0",
